@@ -138,7 +138,9 @@ def build(states, slots, block_size=MB, sector=512, size=None, layer=1, seqs=(7,
     if base_mb is None:
         base_mb = max(meta_mb + 1, bat_mb + bat_len // MB, 4)
     img = Image(label, name)
-    img.put(0, b"vhdxfile" + "verif".encode("utf-16-le"))
+    # Creator: a diagnostic UTF-16 string; what follows its terminator is unspecified (here: stale text ending in an unpaired
+    # surrogate), the field must not influence parsing
+    img.put(0, b"vhdxfile" + "verif".encode("utf-16-le") + b"\0\0" + "stale creator".encode("utf-16-le") + b"\x3d\xd8" * 5)
     img.put(KB64, header(seqs[0]))
     img.put(2 * KB64, header(seqs[1]))
     ents = {"meta": struct.pack("<16sQII", META_GUID, meta_mb * MB, MB, 1),
